@@ -24,9 +24,512 @@ MUTANTS = [
     {"name": "get-host-warns-only", "expect": "R20.5", "edits": [(U, "            raise SecurityError(f\"Host {host!r} is not trusted.\")", "            pass")]},
     {"name": "request-host-drops-list", "expect": "R20.5", "edits": [(Q, "            self.scheme, self.headers.get(\"host\"), self.server, self.trusted_hosts\n", "            self.scheme, self.headers.get(\"host\"), self.server\n")]},
 ]
+
+# ---------------------------------------------------------------------------------------------
+# second robustness round: neutral variants in further spellings (anchors = whole blocks of today's source)
+
+HOST_LOOP = '''    for ref in trusted_list:
+        if ref.startswith("."):
+            ref = ref[1:]
+            suffix_match = True
+        else:
+            suffix_match = False
+
+        try:
+            ref = _strip_port(ref).encode("idna").decode("ascii")
+        except UnicodeError:
+            return False
+
+        if ref == hostname or (suffix_match and hostname.endswith(f".{ref}")):
+            return True
+
+    return False
+'''
+HOST_DEF = "def host_is_trusted(hostname: str | None, trusted_list: t.Iterable[str]) -> bool:\n"
+STRIP_PORT = '''def _strip_port(host: str) -> str:
+    if host.startswith("["):
+        # Bracketed IPv6 literal, a port can only follow the closing bracket.
+        return host[: host.find("]") + 1] or host
+
+    return host.partition(":")[0]
+'''
+DISPATCH = '''        request = Request(environ)
+        response = self.debug_application
+        if request.args.get("__debugger__") == "yes":
+            cmd = request.args.get("cmd")
+            arg = request.args.get("f")
+            secret = request.args.get("s")
+            frame = self.frames.get(request.args.get("frm", type=int))  # type: ignore
+            if cmd == "resource" and arg:
+                response = self.get_resource(request, arg)  # type: ignore
+            elif cmd == "pinauth" and secret == self.secret:
+                response = self.pin_auth(request)  # type: ignore
+            elif cmd == "printpin" and secret == self.secret:
+                response = self.log_pin_request(request)  # type: ignore
+            elif (
+                self.evalex
+                and cmd is not None
+                and frame is not None
+                and self.secret == secret
+                and self.check_pin_trust(environ)
+            ):
+                response = self.execute_command(request, cmd, frame)  # type: ignore
+        elif (
+            self.evalex
+            and self.console_path is not None
+            and request.path == self.console_path
+        ):
+            response = self.display_console(request)  # type: ignore
+        return response(environ, start_response)
+'''
+PIN_BODY = '''        exhausted = False
+        auth = False
+        trust = self.check_pin_trust(request.environ)
+        pin = t.cast(str, self.pin)
+
+        # If the trust return value is `None` it means that the cookie is
+        # set but the stored pin hash value is bad.  This means that the
+        # pin was changed.  In this case we count a bad auth and unset the
+        # cookie.  This way it becomes harder to guess the cookie name
+        # instead of the pin as we still count up failures.
+        bad_cookie = False
+        if trust is None:
+            self._fail_pin_auth()
+            bad_cookie = True
+
+        # If we're trusted, we're authenticated.
+        elif trust:
+            auth = True
+
+        # If we failed too many times, then we're locked out.
+        elif self._failed_pin_auth.value > 10:
+            exhausted = True
+
+        # Otherwise go through pin based authentication
+        else:
+            entered_pin = request.args["pin"]
+
+            if entered_pin.strip().replace("-", "") == pin.replace("-", ""):
+                self._failed_pin_auth.value = 0
+                auth = True
+            else:
+                self._fail_pin_auth()
+
+'''
+PIN_DEF = "    def pin_auth(self, request: Request) -> Response:\n"
+TRUST_BODY = '''        val = parse_cookie(environ).get(self.pin_cookie_name)
+        if not val or "|" not in val:
+            return False
+        ts_str, pin_hash = val.split("|", 1)
+
+        try:
+            ts = int(ts_str)
+        except ValueError:
+            return False
+
+        if pin_hash != hash_pin(self.pin):
+            return None
+        return (time.time() - PIN_TIME) < ts
+'''
+FAIL_BODY = '''        with self._failed_pin_auth.get_lock():
+            count = self._failed_pin_auth.value
+            self._failed_pin_auth.value = count + 1
+'''
+HOSTGATE_CONSOLE = '''        """Display a standalone shell."""
+        if not self.check_host_trust(request.environ):
+            return SecurityError()  # type: ignore[return-value]
+'''
+HOSTGATE_LOG = '''        """Log the pin if needed."""
+        if not self.check_host_trust(request.environ):
+            return SecurityError()  # type: ignore[return-value]
+'''
+GET_HOST_TAIL = '''    if trusted_hosts is not None:
+        if not host_is_trusted(host, trusted_hosts):
+            raise SecurityError(f"Host {host!r} is not trusted.")
+
+    return host
+'''
+
+ANY_HELPER = '''def _entry_matches(hostname: str, entry: str) -> bool:
+    subdomains = entry.startswith(".")
+    name = _strip_port(entry[1:] if subdomains else entry).encode("idna").decode("ascii")
+
+    if name == hostname:
+        return True
+
+    return subdomains and hostname.endswith("." + name)
+
+
+'''
+
+def host_loop(new):
+    return [(U, HOST_LOOP, new)]
+
+
 TWINS = [
     {"name": "secret-compare-reversed", "edits": [(D, "                and self.secret == secret\n                and self.check_pin_trust(environ)", "                and secret == self.secret\n                and self.check_pin_trust(environ)")]},
     {"name": "threshold-ge-11", "edits": [(D, "elif self._failed_pin_auth.value > 10:", "elif self._failed_pin_auth.value >= 11:")]},
     {"name": "host-match-split-ifs", "edits": [(U, '        if ref == hostname or (suffix_match and hostname.endswith(f".{ref}")):\n            return True', '        if ref == hostname:\n            return True\n\n        if suffix_match and hostname.endswith("." + ref):\n            return True')]},
     {"name": "idna-handler-wider", "edits": [(U, "        hostname = _strip_port(hostname).encode(\"idna\").decode(\"ascii\")\n    except UnicodeError:", "        hostname = _strip_port(hostname).encode(\"idna\").decode(\"ascii\")\n    except ValueError:")]},
+
+    {"name": "host-any-over-helper", "edits": [(U, HOST_DEF, ANY_HELPER + HOST_DEF), (U, HOST_LOOP, '''    try:
+        return any(_entry_matches(hostname, item) for item in trusted_list)
+    except UnicodeError:
+        return False
+''')]},
+    {"name": "host-removeprefix-format", "edits": host_loop('''    for item in trusted_list:
+        wildcard = item.startswith(".")
+
+        try:
+            name = _strip_port(item.removeprefix(".")).encode("idna").decode("ascii")
+        except UnicodeError:
+            return False
+
+        if wildcard and hostname.endswith(".{}".format(name)):
+            return True
+        elif hostname == name:
+            return True
+
+    return False
+''')},
+    {"name": "host-strip-port-conditional-expression", "edits": [(U, STRIP_PORT, '''def _strip_port(host: str) -> str:
+    bracketed = host.startswith("[")
+    # Bracketed IPv6 literal, a port can only follow the closing bracket.
+    return (host[: host.find("]") + 1] or host) if bracketed else host.partition(":")[0]
+''')]},
+    {"name": "host-continue-style", "edits": host_loop('''    for ref in trusted_list:
+        suffix_match = False
+
+        if ref.startswith("."):
+            suffix_match = True
+            ref = ref[1:]
+
+        try:
+            ref = _strip_port(ref).encode("idna").decode("ascii")
+        except UnicodeError:
+            return False
+
+        if ref != hostname:
+            if not suffix_match:
+                continue
+
+            if not hostname.endswith(".%s" % ref):
+                continue
+
+        return True
+
+    return False
+''')},
+    {"name": "get-host-early-returns", "edits": [(U, GET_HOST_TAIL, '''    if trusted_hosts is None:
+        return host
+
+    if host_is_trusted(host, trusted_hosts):
+        return host
+
+    raise SecurityError(f"Host {host!r} is not trusted.")
+''')]},
+    {"name": "dispatch-table-and-early-returns", "edits": [(D, DISPATCH, '''        request = Request(environ)
+        args = request.args
+
+        if args.get("__debugger__") != "yes":
+            console = self.evalex and self.console_path is not None
+            if console and request.path == self.console_path:
+                return self.display_console(request)(environ, start_response)
+            return self.debug_application(environ, start_response)
+
+        cmd = args.get("cmd")
+        arg = args.get("f")
+        secret_ok = args.get("s") == self.secret
+        frame = self.frames.get(args.get("frm", type=int))  # type: ignore
+        handlers = {"pinauth": self.pin_auth, "printpin": self.log_pin_request}
+
+        if cmd == "resource" and arg:
+            response = self.get_resource(request, arg)
+        elif cmd in handlers and secret_ok:
+            response = handlers[cmd](request)
+        elif not (self.evalex and secret_ok) or cmd is None or frame is None:
+            response = self.debug_application  # type: ignore
+        elif not self.check_pin_trust(environ):
+            response = self.debug_application  # type: ignore
+        else:
+            response = self.execute_command(request, cmd, frame)
+        return response(environ, start_response)
+''')]},
+    {"name": "pin-auth-tuple-helper", "edits": [(D, PIN_DEF, '''    def _authenticate(self, request: Request) -> tuple[bool, bool, bool]:
+        """(auth, exhausted, bad_cookie)"""
+        cookie_state = self.check_pin_trust(request.environ)
+
+        if cookie_state is None:
+            self._fail_pin_auth()
+            return False, False, True
+
+        if cookie_state:
+            return True, False, False
+
+        if not self._failed_pin_auth.value <= 10:
+            return False, True, False
+
+        expected = t.cast(str, self.pin).replace("-", "")
+
+        if request.args["pin"].strip().replace("-", "") != expected:
+            self._fail_pin_auth()
+            return False, False, False
+
+        self._failed_pin_auth.value = 0
+        return True, False, False
+
+''' + PIN_DEF), (D, PIN_BODY, '''        auth, exhausted, bad_cookie = self._authenticate(request)
+        pin = t.cast(str, self.pin)
+
+''')]},
+    {"name": "pin-trust-len-of-split", "edits": [(D, TRUST_BODY, '''        cookie = parse_cookie(environ).get(self.pin_cookie_name)
+        if not cookie:
+            return False
+        parts = cookie.split("|", 1)
+        if len(parts) != 2:
+            return False
+        stamp, digest = parts
+
+        try:
+            issued = int(stamp)
+        except ValueError:
+            return False
+
+        if hash_pin(self.pin) == digest:
+            now = time.time()
+            if issued + PIN_TIME > now:
+                return True
+            return False
+        return None
+''')]},
+    {"name": "fail-pin-auth-augmented", "edits": [(D, FAIL_BODY, '''        with self._failed_pin_auth.get_lock():
+            count = self._failed_pin_auth.value
+            self._failed_pin_auth.value += 1
+''')]},
+    {"name": "host-gate-helper", "edits": [(D, PIN_DEF, '''    def _untrusted_host(self, request: Request) -> Response | None:
+        if self.check_host_trust(request.environ):
+            return None
+        return SecurityError()  # type: ignore[return-value]
+
+''' + PIN_DEF), (D, HOSTGATE_CONSOLE, '''        """Display a standalone shell."""
+        rejected = self._untrusted_host(request)
+        if rejected is not None:
+            return rejected
+'''), (D, HOSTGATE_LOG, '''        """Log the pin if needed."""
+        if (rejected := self._untrusted_host(request)) is not None:
+            return rejected
+''')]},
+]
+
+
+# ---------------------------------------------------------------------------------------------
+# mutants *in the new shapes*: a neutral variant from above (or one of the held-out refactorings) with one
+# obligation broken inside it
+
+
+def _twin(name: str) -> list:
+    return [list(e) for t_ in TWINS if t_["name"] == name for e in t_["edits"]]
+
+
+def _broken(name: str, old: str, new: str) -> list:
+    """the edits of twin `name` with `old` -> `new` applied inside its replacement text (exactly once)."""
+    edits = _twin(name)
+    hits = [e for e in edits if old in e[2]]
+    assert len(hits) == 1 and hits[0][2].count(old) == 1, (name, old)
+    hits[0][2] = hits[0][2].replace(old, new)
+    return [tuple(e) for e in edits]
+
+
+# the shapes of the held-out refactorings C20-5 (flags as direct boolean expressions) and C20-6 (dispatch helper with
+# early returns, default chosen afterwards), re-typed here so that a broken version of each can be built
+PIN_BODY_FLAGS = '''        exhausted = False
+        auth = False
+        trust = self.check_pin_trust(request.environ)
+        pin = t.cast(str, self.pin)
+        bad_cookie = trust is None
+
+        if bad_cookie:
+            self._fail_pin_auth()
+        elif trust:
+            auth = True
+        else:
+            exhausted = self._failed_pin_auth.value > 10
+
+            if not exhausted:
+                entered_pin = request.args["pin"]
+                auth = entered_pin.strip().replace("-", "") == pin.replace("-", "")
+
+                if auth:
+                    self._failed_pin_auth.value = 0
+                else:
+                    self._fail_pin_auth()
+
+'''
+DISPATCH_HELPER = '''    def _dispatch_command(self, request: Request) -> Response | None:
+        cmd = request.args.get("cmd")
+        arg = request.args.get("f")
+        secret = request.args.get("s")
+        frame = self.frames.get(request.args.get("frm", type=int))  # type: ignore
+
+        if cmd == "resource" and arg:
+            return self.get_resource(request, arg)
+
+        if secret != self.secret:
+            return None
+
+        if cmd == "pinauth":
+            return self.pin_auth(request)
+
+        if cmd == "printpin":
+            return self.log_pin_request(request)
+
+        if self.evalex and cmd is not None and frame is not None:
+            if self.check_pin_trust(request.environ):
+                return self.execute_command(request, cmd, frame)
+
+        return None
+
+'''
+DISPATCH_VIA_HELPER = '''        request = Request(environ)
+        response = None
+        if request.args.get("__debugger__") == "yes":
+            response = self._dispatch_command(request)
+        elif (
+            self.evalex
+            and self.console_path is not None
+            and request.path == self.console_path
+        ):
+            response = self.display_console(request)
+        if response is None:
+            response = self.debug_application  # type: ignore[assignment]
+        return response(environ, start_response)
+'''
+TWINS += [
+    {"name": "pin-auth-direct-flags", "edits": [(D, PIN_BODY, PIN_BODY_FLAGS)]},
+    {"name": "dispatch-helper-early-returns", "edits": [(D, PIN_DEF, DISPATCH_HELPER + PIN_DEF), (D, DISPATCH, DISPATCH_VIA_HELPER)]},
+]
+
+MUTANTS += [
+    # host_is_trusted through any() over a helper
+    {"name": "any-helper:suffix-not-dot-anchored", "expect": "R20.5", "edits": _broken("host-any-over-helper", 'hostname.endswith("." + name)', "hostname.endswith(name)")},
+    {"name": "any-helper:idna-error-escapes", "expect": "R20.5", "edits": _broken("host-any-over-helper", "    except UnicodeError:\n        return False\n", "    except UnicodeDecodeError:\n        return False\n")},
+    {"name": "any-helper:entry-not-port-stripped", "expect": "R20.5", "edits": _broken("host-any-over-helper", "_strip_port(entry[1:] if subdomains else entry).encode", "(entry[1:] if subdomains else entry).encode")},
+    # removeprefix / format spelling
+    {"name": "removeprefix:suffix-for-every-entry", "expect": "R20.5", "edits": _broken("host-removeprefix-format", "if wildcard and hostname.endswith", "if hostname.endswith")},
+    {"name": "removeprefix:first-char-always-dropped", "expect": "R20.5", "edits": _broken("host-removeprefix-format", 'item.removeprefix(".")', "item[1:]")},
+    # port strip as a conditional expression
+    {"name": "condexp:port-strip-ignores-brackets", "expect": "R20.5", "edits": _broken("host-strip-port-conditional-expression", '(host[: host.find("]") + 1] or host) if bracketed else host.partition(":")[0]', 'host.partition(":")[0]')},
+    # continue style
+    {"name": "continue-style:suffix-for-every-entry", "expect": "R20.5", "edits": _broken("host-continue-style", "            if not suffix_match:\n                continue\n\n", "")},
+    {"name": "continue-style:flag-leaks-into-next-entry", "expect": "R20.5", "edits": _broken("host-continue-style", "    for ref in trusted_list:\n        suffix_match = False\n", "    suffix_match = False\n\n    for ref in trusted_list:\n")},
+    # get_host with early returns
+    {"name": "get-host-early:empty-list-skips-check", "expect": "R20.5", "edits": _broken("get-host-early-returns", "if trusted_hosts is None:", "if not trusted_hosts:")},
+    {"name": "get-host-early:falls-through", "expect": "R20.5", "edits": _broken("get-host-early-returns", '    raise SecurityError(f"Host {host!r} is not trusted.")\n', "    return host\n")},
+    # dispatch table
+    {"name": "dispatch-table:handlers-without-secret", "expect": "R20.2", "edits": _broken("dispatch-table-and-early-returns", "elif cmd in handlers and secret_ok:", "elif cmd in handlers:")},
+    {"name": "dispatch-table:eval-without-secret", "expect": "R20.1", "edits": _broken("dispatch-table-and-early-returns", "elif not (self.evalex and secret_ok) or cmd is None or frame is None:", "elif not self.evalex or cmd is None or frame is None:")},
+    {"name": "dispatch-table:eval-without-pin-trust", "expect": "R20.1", "edits": _broken("dispatch-table-and-early-returns", "        elif not self.check_pin_trust(environ):\n            response = self.debug_application  # type: ignore\n", "")},
+    {"name": "dispatch-table:console-without-evalex", "expect": "R20.2", "edits": _broken("dispatch-table-and-early-returns", "console = self.evalex and self.console_path is not None", "console = self.console_path is not None")},
+    # authentication helper returning a tuple
+    {"name": "tuple-helper:fields-swapped", "expect": "R20.3", "edits": _broken("pin-auth-tuple-helper", "        auth, exhausted, bad_cookie = self._authenticate(request)", "        exhausted, auth, bad_cookie = self._authenticate(request)")},
+    {"name": "tuple-helper:forged-cookie-not-counted", "expect": "R20.3", "edits": _broken("pin-auth-tuple-helper", "        if cookie_state is None:\n            self._fail_pin_auth()\n", "        if cookie_state is None:\n")},
+    {"name": "tuple-helper:threshold-after-compare", "expect": "R20.3", "edits": _broken("pin-auth-tuple-helper", "        if not self._failed_pin_auth.value <= 10:\n            return False, True, False\n\n", "")},
+    {"name": "tuple-helper:threshold-12", "expect": "R20.3", "edits": _broken("pin-auth-tuple-helper", "self._failed_pin_auth.value <= 10", "self._failed_pin_auth.value <= 12")},
+    # cookie taken apart with split + len
+    {"name": "len-split:no-separator-test", "expect": "R20.4", "edits": _broken("pin-trust-len-of-split", "        if len(parts) != 2:\n            return False\n", "")},
+    {"name": "len-split:expiry-reversed", "expect": "R20.4", "edits": _broken("pin-trust-len-of-split", "if issued + PIN_TIME > now:", "if issued + PIN_TIME < now:")},
+    {"name": "len-split:wrong-hash-is-false", "expect": "R20.4", "edits": _broken("pin-trust-len-of-split", "            return False\n        return None\n", "            return False\n        return False\n")},
+    # augmented increment
+    {"name": "augmented:increment-outside-lock", "expect": "R20.3", "edits": _broken("fail-pin-auth-augmented", "            count = self._failed_pin_auth.value\n            self._failed_pin_auth.value += 1\n", "            count = self._failed_pin_auth.value\n        self._failed_pin_auth.value += 1\n")},
+    {"name": "augmented:increment-by-zero", "expect": "R20.3", "edits": _broken("fail-pin-auth-augmented", "self._failed_pin_auth.value += 1", "self._failed_pin_auth.value += 0")},
+    # host gate through a helper
+    {"name": "gate-helper:verdict-inverted", "expect": "R20.2", "edits": _broken("host-gate-helper", "        if self.check_host_trust(request.environ):\n            return None\n", "        if not self.check_host_trust(request.environ):\n            return None\n")},
+    {"name": "gate-helper:result-ignored", "expect": "R20.2", "edits": _broken("host-gate-helper", "        rejected = self._untrusted_host(request)\n        if rejected is not None:\n            return rejected\n", "        rejected = self._untrusted_host(request)\n")},
+    # flags assigned directly from boolean expressions
+    {"name": "direct-flags:compare-when-exhausted", "expect": "R20.3", "edits": [(D, PIN_BODY, PIN_BODY_FLAGS.replace("            if not exhausted:\n", "            if True:\n"))]},
+    {"name": "direct-flags:wrong-pin-not-counted", "expect": "R20.3", "edits": [(D, PIN_BODY, PIN_BODY_FLAGS.replace("                else:\n                    self._fail_pin_auth()\n", ""))]},
+    # dispatch helper with early returns
+    {"name": "dispatch-helper:secret-guard-after-pinauth", "expect": "R20.2", "edits": [(D, PIN_DEF, DISPATCH_HELPER.replace('        if secret != self.secret:\n            return None\n\n        if cmd == "pinauth":\n            return self.pin_auth(request)\n', '        if cmd == "pinauth":\n            return self.pin_auth(request)\n\n        if secret != self.secret:\n            return None\n') + PIN_DEF), (D, DISPATCH, DISPATCH_VIA_HELPER)]},
+    {"name": "dispatch-helper:eval-without-pin-trust", "expect": "R20.1", "edits": [(D, PIN_DEF, DISPATCH_HELPER.replace("            if self.check_pin_trust(request.environ):\n                return self.execute_command(request, cmd, frame)\n", "            return self.execute_command(request, cmd, frame)\n") + PIN_DEF), (D, DISPATCH, DISPATCH_VIA_HELPER)]},
+    {"name": "dispatch-helper:called-from-console-too", "expect": "R20.2", "edits": [(D, PIN_DEF, DISPATCH_HELPER + PIN_DEF), (D, DISPATCH, DISPATCH_VIA_HELPER), (D, '        """Display a standalone shell."""\n', '        """Display a standalone shell."""\n        self._dispatch_command(request)\n')]},
+]
+
+
+# further spellings (first-character test, unpacking inside the try, one try around the loop, conditions as expressions)
+TWINS += [
+  {"name": "first-char-compare", "edits": [(U, HOST_LOOP, '''    for ref in trusted_list:
+        suffix_match = ref[:1] == "."
+        ref = ref[1:] if suffix_match else ref
+
+        try:
+            ref = _strip_port(ref).encode("idna").decode("ascii")
+        except UnicodeError:
+            return False
+
+        if hostname == ref:
+            return True
+        if not suffix_match:
+            continue
+        if hostname.endswith("." + ref):
+            return True
+
+    return False
+''')]},
+  {"name": "unpack-in-try", "edits": [(D, TRUST_BODY, '''        val = parse_cookie(environ).get(self.pin_cookie_name)
+        if not val:
+            return False
+
+        try:
+            ts_str, pin_hash = val.split("|", 1)
+            ts = int(ts_str)
+        except ValueError:
+            return False
+
+        if pin_hash != hash_pin(self.pin):
+            return None
+        return (time.time() - PIN_TIME) < ts
+''')]},
+  {"name": "frame-subscript", "edits": [(D, '            frame = self.frames.get(request.args.get("frm", type=int))  # type: ignore\n', '            frame_id = request.args.get("frm", type=int)\n            frame = self.frames[frame_id] if frame_id in self.frames else None  # type: ignore\n')]},
+  {"name": "console-truthy-path", "edits": [(D, "            and self.console_path is not None\n", "            and self.console_path\n")]},
+  {"name": "host-all-in-one-try", "edits": [(U, HOST_LOOP, '''    try:
+        for ref in trusted_list:
+            suffix_match = ref.startswith(".")
+            if suffix_match:
+                ref = ref[1:]
+            ref = _strip_port(ref).encode("idna").decode("ascii")
+            if ref == hostname or (suffix_match and hostname.endswith(f".{ref}")):
+                return True
+    except UnicodeError:
+        pass
+
+    return False
+''')]},
+  {"name": "handlers-ternary-gate", "edits": [(D, HOSTGATE_LOG, '''        """Log the pin if needed."""
+        trusted = self.check_host_trust(request.environ)
+        if trusted is False or not trusted:
+            return SecurityError()  # type: ignore[return-value]
+''')]},
+  {"name": "pin-auth-expression-soup", "edits": [(D, PIN_BODY, '''        trust = self.check_pin_trust(request.environ)
+        pin = t.cast(str, self.pin)
+        bad_cookie = trust is None
+        exhausted = not bad_cookie and not trust and self._failed_pin_auth.value > 10
+        auth = bool(trust)
+
+        if bad_cookie:
+            self._fail_pin_auth()
+        elif not (auth or exhausted):
+            auth = request.args["pin"].strip().replace("-", "") == pin.replace("-", "")
+            if not auth:
+                self._fail_pin_auth()
+            else:
+                self._failed_pin_auth.value = 0
+
+''')]},
+]
+MUTANTS += [
+    {"name": "first-char:suffix-for-every-entry", "expect": "R20.5", "edits": _broken("first-char-compare", "        if not suffix_match:\n            continue\n", "")},
+    {"name": "unpack-in-try:split-outside-try", "expect": "R20.4", "edits": _broken("unpack-in-try", '        try:\n            ts_str, pin_hash = val.split("|", 1)\n', '        ts_str, pin_hash = val.split("|", 1)\n\n        try:\n')},
+    {"name": "one-try:handler-too-narrow", "expect": "R20.5", "edits": _broken("host-all-in-one-try", "    except UnicodeError:\n        pass\n", "    except UnicodeEncodeError:\n        pass\n")},
+    {"name": "expression-soup:exhausted-ignored", "expect": "R20.3", "edits": _broken("pin-auth-expression-soup", "elif not (auth or exhausted):", "elif not auth:")},
+    {"name": "ternary-gate:pin-logged-before-gate", "expect": "R20.2", "edits": _broken("handlers-ternary-gate", "        trusted = self.check_host_trust(request.environ)\n", '        _log("info", " * Debugger pin code: %s", self.pin)\n        trusted = self.check_host_trust(request.environ)\n')},
 ]
